@@ -45,4 +45,5 @@ func runWitness(env *Env, rep *Report, name string, mk func() *Case) {
 // Checks is the registry of property checks.
 var Checks = map[string]func(env *Env, rep *Report){
 	"C01": RunC01,
+	"C02": RunC02,
 }
